@@ -1,7 +1,7 @@
 """Sidecar contracts for the snapshot value objects (Layer B):
    generic_value.clone / GenericValue._return, MinMaxValue._generic_cmp / _get_changes."""
 from pyvc.contract import Loop, Shape, contract
-from pyvc.specs import s_deepcopy
+from pyvc.specs import s_deepcopy, ord_may_raise as _ord_may_raise
 from pyvc.types import Opaque
 
 GV = "inline_snapshot._snapshot.generic_value"
@@ -44,7 +44,7 @@ contract(
     pure=True,
     frame=[],
     ensures={
-        "is-deep-copy [C17]": "same(ret, deepcopy(obj))",
+        "is-deep-copy [C17,C02]": "same(ret, deepcopy(obj))",
         "copy-equals-original [C17]": "T(eq(obj, ret))",
     },
     raises={"UsageError": {"only-when-copy-differs [C17]": "not T(eq(obj, deepcopy(obj)))"}},
@@ -119,6 +119,23 @@ for cls, cmpname in (("MinValue", "le"), ("MaxValue", "ge")):
         },
         safety_props=["C18"],
         ghost={"extra_params": ["obs"]},
+    )
+
+    # variant 3: comparisons that raise (C18 "comparisons that raise"; PS8): whatever exit is taken, the recorded value stays
+    # comparable with the value in the source -- MinMaxValue._get_changes compares the two at the end of the session
+    COMPARABLE = "(self._old_value is undefined or self._new_value is undefined or not cmp_raises(self._old_value, self._new_value))"
+    contract(
+        MM + ".MinMaxValue._generic_cmp",
+        name=f"{MM}.MinMaxValue._generic_cmp#{cls}/raising",
+        uses=["val", "PS8"],
+        **{k: v for k, v in common.items() if k not in ("requires", "raises", "assumes")},
+        requires={"compared-value-is-not-the-sentinel": "other is not undefined", "Inv-comparable": COMPARABLE},
+        ensures={"recorded-value-stays-comparable [C18]": COMPARABLE},
+        raises={"UsageError": {"recorded-value-stays-comparable [C18]": COMPARABLE},
+                "CmpError": {"recorded-value-stays-comparable-when-the-comparison-raises [C18,C06]": COMPARABLE}},
+        ghost={"cmp_may_raise": _ord_may_raise, "frame_props": ["C14"]},
+        safety_props=["C18"],
+        assumes=["PS6", "PS8", "X14"],
     )
 
 # --------------------------------------------------------------------------------------------
@@ -289,6 +306,9 @@ contract(
         "update-keeps-value [C05,C08]": "all(same(trace[j].new_value, trace[j].old_value) for j in range(0, len(trace)))",
         "code-is-code-of-the-replaced-value [C05,C18,C03]": "all(trace[j].code == code_of(trace[j].new_value) for j in range(0, len(trace)))",
         "leaf-replaced-at-its-own-node [C05,C18,C03]": "implies(not is_container(obj), all(same(trace[j].node, node) and same(trace[j].new_value, obj) for j in range(0, len(trace))))",
+        # C10: Is(...) / dirty-equals / nested snapshots (wrapped as Unmanaged by map_unmanaged) and f-strings are "never altered
+        # by any category" -- also not by the update of a snapshot that was never compared
+        "user-controlled-leaf-is-never-replaced [C10]": "implies(not is_container(obj) and (isinstance_of(obj, 'Unmanaged') or (node is not None and isinstance_node(node, 'JoinedStr'))), len(trace) == 0)",
     },
     loops={0: Loop(index="k", inv={
         "only-updates": "all(trace[j].flag == 'update' and trace[j].kind == 'Replace' for j in range(0, len(trace)))",
@@ -313,28 +333,35 @@ for cls, cmpname in (("MinValue", "le"), ("MaxValue", "ge")):
         name=f"{MM}.MinMaxValue._get_changes#{cls}",
         params={"self": "@Value"},
         self_cls=f"{MM}.{cls}",
-        uses=["val"],
+        uses=["val", "PS8"],
         callees={"MinMaxValue.cmp": "inline", f"{cls}.cmp": "inline"},
-        requires={"decided": "self._old_value is not undefined and self._new_value is not undefined"},
+        # class invariant established by _generic_cmp (variant /raising): a recorded value is comparable with the value in the source;
+        # nothing may be recorded at all when the only comparison raised
+        requires={"has-an-argument": "self._old_value is not undefined",
+                  "Inv-comparable": "self._new_value is undefined or not cmp_raises(self._old_value, self._new_value)"},
         frame=[],
+        raises={},
         ensures={
+            # C18: "comparisons that raise": collecting the changes finishes (no exceptional exit is declared), and a snapshot whose
+            # only comparison raised has nothing pending
+            "nothing-recorded-nothing-pending [C18,C05]": "implies(self._new_value is undefined, len(trace) == 0)",
             "at-most-one-change [C05,C18]": "len(trace) <= 1",
             # C05: "fix is reported exactly when some comparison against the current value fails" -- with the class
             # invariant (new is the extreme of the observations) cmp(old, new) fails iff cmp(old, x) fails for some x
-            "fix-iff-bound-violated [C05,C07]": "(" + ONE + " and trace[0].flag == 'fix') == (not T(" + cmp2("self._old_value", "self._new_value") + "))",
+            "fix-iff-bound-violated [C05,C07,C04]": "implies(self._new_value is not undefined, (" + ONE + " and trace[0].flag == 'fix') == (not T(" + cmp2("self._old_value", "self._new_value") + ")))",
             # C05: "trim only removes slack - a bound that is satisfied but not tight"
-            "trim-iff-slack [C05]": "(" + ONE + " and trace[0].flag == 'trim') == (T(" + cmp2("self._old_value", "self._new_value") + ") and not T(" + cmp2("self._new_value", "self._old_value") + "))",
+            "trim-iff-slack [C05,C04]": "implies(self._new_value is not undefined, (" + ONE + " and trace[0].flag == 'trim') == (T(" + cmp2("self._old_value", "self._new_value") + ") and not T(" + cmp2("self._new_value", "self._old_value") + ")))",
             # C05/C08: "An update never changes the value": only when both directions hold and the tokens differ
-            "update-only-for-equal-value [C05,C08]": "(" + ONE + " and trace[0].flag == 'update') == (T(" + cmp2("self._old_value", "self._new_value") + ") and T(" + cmp2("self._new_value", "self._old_value") + ")"
-                                                     " and self._ast_node is not None and tokens_differ(self._ast_node, self._new_value))",
+            "update-only-for-equal-value [C05,C08]": "implies(self._new_value is not undefined, (" + ONE + " and trace[0].flag == 'update') == (T(" + cmp2("self._old_value", "self._new_value") + ") and T(" + cmp2("self._new_value", "self._old_value") + ")"
+                                                     " and self._ast_node is not None and tokens_differ(self._ast_node, self._new_value)))",
             "only-known-flags [C05]": "implies(" + ONE + ", trace[0].flag == 'fix' or trace[0].flag == 'trim' or trace[0].flag == 'update')",
             # C05 "yields the tightest value" / C01: the replacement is the recorded extreme, written at the snapshot argument
             "writes-the-extreme [C05,C01,C03]": "implies(" + ONE + ", same(trace[0].new_value, self._new_value) and same(trace[0].node, self._ast_node)"
                                                 " and trace[0].code == code_of(self._new_value) and trace[0].kind == 'Replace')",
         },
         safety_props=["C18"],
-        ghost={"frame_props": ["C14"]},
-        assumes=["PS7", "X2", "X10"],
+        ghost={"frame_props": ["C14"], "cmp_may_raise": _ord_may_raise},
+        assumes=["PS7", "PS8", "X2", "X10"],
     )
 
 # --------------------------------------------------------------------------------------------
@@ -556,6 +583,11 @@ def cv_yield_check(I, v, node, env):
             I.oblige("post", "trims-only-untested-members [C05]", _z3.BoolVal(v.fields["flag"] == "trim"))
         else:
             I.oblige("post", "update-keeps-the-member [C05,C08]", _z3.And(_z3.BoolVal(v.fields["flag"] == "update"), I.zbool(I.identical(v.fields["new_value"], v.fields["old_value"]))))
+            # C10: a member that hands control back to the user (Is(...), f-string) is never rewritten by update
+            ov, on = v.fields["old_value"], v.fields["node"]
+            unm = _z3.Function("isinst_Unmanaged", _so(_Abs("Val")), _z3.BoolSort())(_vt(I, ov))
+            js = _z3.Function("isinst_JoinedStr", _so(_Abs("Node")), _z3.BoolSort())(on.t) if isinstance(on, _SV) else _z3.BoolVal(False)
+            I.oblige("post", "user-controlled-member-is-never-updated [C10]", _z3.And(_z3.Not(unm), _z3.Not(js)))
     elif kind == "ListInsert":
         from pyvc.core import zint as _zint
 
@@ -580,7 +612,7 @@ contract(
     loops={0: Loop(index="k", ghost_modifies=["last_changed"], inv={"last-change-is-earlier": "last_changed < k"})},
     ensures={"terminates-normally [C18]": "True"},
     frame=[],
-    ghost={"vars": {"last_changed": "=-1"}, "yield_check": cv_yield_check, "none_list_ty": "Node", "props": ["C05", "C08"], "frame_props": ["C14"]},
+    ghost={"vars": {"last_changed": "=-1"}, "yield_check": cv_yield_check, "none_list_ty": "Node", "props": ["C05", "C08", "C10"], "frame_props": ["C14"]},
     safety_props=["C18"],
 )
 
@@ -622,5 +654,137 @@ contract(
     ensures={"parent-re-evaluated-first [C14]": "parent_re_evaluated_with == value"},
     ghost={"vars": {"parent_re_evaluated_with": "=None"}, "props": ["C14", "C06", "C10"], "light_feasibility": True},
     frame=None,
+    safety_props=["C18"],
+)
+
+# --------------------------------------------------------------------------------------------
+# GenericValue._re_eval.re_eval (inner function): what a repeated evaluation of the same snapshot() call does with the
+# freshly evaluated argument (C14)
+
+from pyvc.core import RaiseSig as _RaiseSig
+from pyvc.types import Obj as _RObj
+
+
+def p_re_get_adapter(I, args, kwargs, node):
+    """self.get_adapter(old_value): None, an adapter without items (ValueAdapter), or a container adapter (PS2)"""
+    if I.ctx.choose():
+        I.ghost["is_leaf"] = True
+        return None if I.ctx.choose() else _RObj("inline_snapshot._adapter.value_adapter.ValueAdapter", {})
+    I.ghost["is_leaf"] = False
+
+    def items(I2, v, nd):
+        its = _fv(I2.ctx, _pty("List[Item]"), "items")
+        if v is I2.param_env.lookup("old_value"):
+            I2.ghost["old_items"] = its
+        else:
+            I2.ghost["new_items"] = its
+        return its
+
+    return _RObj("container-adapter", {"items": items})
+
+
+def p_re_child(I, args, kwargs, node):
+    """the recursive call (by this contract): pairs the k-th stored part with the k-th fresh part and its node; may raise UsageError"""
+    o, nd, n = args
+    k = I.param_env.lookup("k") if I.param_env.has("k") else None
+    import ast as _ast
+
+    I.ghost["n_child_calls"] = I.binop(_ast.Add(), I.ghost["n_child_calls"], 1)
+    oi, ni = I.ghost["old_items"], I.ghost["new_items"]
+    q = _z3.Int(I.ctx.fresh_name("q"))
+    IT = _so(_pty("Item"))
+    val, nod = IT.accessor(0, 0), IT.accessor(0, 1)
+    nt = nd.t if isinstance(nd, _SV) else I.V.none_const(_Abs("Node"))
+    good = _z3.Exists([q], _z3.And(0 <= q, q < oi.nz(), q < ni.nz(), _vt(I, o) == val(_z3.Select(oi.arr, q)), nt == nod(_z3.Select(oi.arr, q)),
+                                   _vt(I, n) == val(_z3.Select(ni.arr, q))))
+    I.oblige("call-pre", f"parts-are-paired-by-position@{getattr(node, 'lineno', '?')} [C14]", good)
+    if not I.ctx.choose():
+        I.ghost["child_raised"] = True
+        raise _RaiseSig("UsageError", info=["re_eval"])
+    return None
+
+
+def p_update_allowed(I, args, kwargs, node):
+    r = _SV(_z3.Bool(I.ctx.fresh_name("update_allowed")), _BOOL)
+    I.ghost["ua"] = r
+    return r
+
+
+RG = {"is_leaf": "=None", "old_items": "=None", "new_items": "=None", "n_child_calls": "=0", "child_raised": "=False", "ua": "=None"}
+
+contract(
+    GV + ".GenericValue._re_eval.re_eval",
+    name=GV + ".GenericValue._re_eval.re_eval#unmanaged",
+    params={"self": "@Value", "old_value": "@UnmObj", "node": "Node", "value": "Val"},
+    shapes={"UnmObj": Shape("inline_snapshot._unmanaged.Unmanaged", {"value": "Val"})},
+    ghost={"vars": RG},
+    ensures={
+        # C14: an Is()/dirty-equals/nested-snapshot part of the stored argument always stands for what the *current* evaluation
+        # produced there (a helper called from two call sites hands in two different snapshot objects)
+        "unmanaged-part-is-rebound-to-the-fresh-value [C14,C06]": "same(old_value.value, value) and n_child_calls == 0",
+    },
+    raises={},
+    safety_props=["C18"],
+)
+
+contract(
+    GV + ".GenericValue._re_eval.re_eval",
+    name=GV + ".GenericValue._re_eval.re_eval#managed",
+    params={"self": "@Value", "old_value": "Val", "node": "Node", "value": "Val"},
+    requires={"managed": "not isinstance_of(old_value, 'Unmanaged')"},
+    callees={"GenericValue.get_adapter": p_re_get_adapter, "re_eval": p_re_child, "update_allowed": p_update_allowed,
+             "inline_snapshot._unmanaged.update_allowed": p_update_allowed},
+    loops={0: Loop(index="k", ghost_modifies=["n_child_calls"], inv={"one-call-per-pair": "n_child_calls == k"})},
+    ghost={"vars": RG, "asserts_raise": True},
+    uses=["val"],
+    ensures={
+        # C14: "changed -> usage error": a managed leaf is accepted only if it still equals the stored value
+        "leaf-accepted-only-when-unchanged [C14]": "when(is_leaf, T(eq(old_value, value)))",
+        "every-pair-of-parts-is-checked [C14]": "when(is_leaf == False, n_child_calls == len(old_items) and len(old_items) == len(new_items))",
+    },
+    raises={"UsageError": {"only-for-a-changed-leaf-or-from-a-part [C14]": "(is_leaf and not T(eq(old_value, value))) or child_raised"},
+            "AssertionError": {"internal-sanity-checks [C18]": "True"}},
+    safety_props=["C18"],
+    assumes=["PS2"],
+)
+
+
+def p_re_root(I, args, kwargs, node):
+    I.ghost["n_child_calls"] = I.ghost["n_child_calls"] + 1
+    I.ghost["root_args"] = tuple(args)
+    if not I.ctx.choose():
+        raise _RaiseSig("UsageError", info=["re_eval"])
+    return None
+
+
+contract(
+    GV + ".GenericValue._re_eval",
+    params={"self": "@Value", "value": "Val", "context": "Opaque"},
+    callees={"re_eval": p_re_root},
+    ghost={"vars": {"n_child_calls": "=0", "root_args": "=None"}},
+    ensures={
+        # C14: the whole stored argument is compared with the whole fresh argument, starting at the argument's own node
+        "compares-the-stored-argument-with-the-fresh-one [C14]": "n_child_calls == 1 and same(root_args[0], self._old_value) and same(root_args[1], self._ast_node) and same(root_args[2], value)",
+        "adopts-the-context-of-this-evaluation [C14]": "self._context is context",
+    },
+    raises={"UsageError": {"from-the-comparison [C14]": "n_child_calls == 1"}},
+    safety_props=["C18"],
+)
+
+# CollectionValue._get_changes when the only `in` test raised before anything was recorded (C18 "comparisons that raise"):
+# UndecidedValue.__contains__ has already turned the object into a CollectionValue, _new_value is still the sentinel
+contract(
+    CV + ".CollectionValue._get_changes",
+    name=CV + ".CollectionValue._get_changes#unrecorded",
+    params={"self": "@CGValueU"},
+    shapes={"CGValueU": Shape(CV + ".CollectionValue", {"_old_value": "List[Val]", "_new_value": "=Ellipsis", "_ast_node": "Node", "_context": "@Context"})},
+    requires={"denotes": "implies(self._ast_node is not None, isinstance_node(self._ast_node, 'List') and len(self._ast_node.elts) == len(self._old_value))"},
+    extern_patterns={"[v for v in self._new_value if v not in self._old_value]": _cv_new_values,
+                     "[self._file._value_to_code(v) for v in new_values]": lambda I, n, env: Opaque("codes")},
+    loops={0: Loop(index="k", ghost_modifies=["last_changed"], inv={"last-change-is-earlier": "last_changed < k"})},
+    ensures={"nothing-recorded-nothing-pending [C18,C05]": "len(trace) == 0"},
+    raises={},
+    frame=[],
+    ghost={"vars": {"last_changed": "=-1"}, "none_list_ty": "Node", "props": ["C18", "C05"]},
     safety_props=["C18"],
 )
